@@ -7,6 +7,7 @@ out = sys.argv[3]
 round2 = len(sys.argv) > 4 and sys.argv[4] == 'round2'
 round3 = len(sys.argv) > 4 and sys.argv[4] == 'round3'
 round4 = len(sys.argv) > 4 and sys.argv[4] == 'round4'
+round5 = len(sys.argv) > 4 and sys.argv[4] == 'round5'
 p = None
 for l in open('/verif/properties.jsonl'):
     d = json.loads(l)
@@ -37,7 +38,9 @@ This is a SECOND round: an earlier round already produced the most obvious candi
 
 This is a THIRD round: two earlier rounds already produced the obvious candidates and a set of helper / frame-condition / call-twice candidates. This time aim for changes whose manifestation depends on SCALE or CONFIGURATION rather than on a single special value: they only show for inputs beyond toy sizes (for example tracks, networks, windows, grids, models or expressions with at least 5-8 elements, several levels of nesting or recursion, many repeated operations), for particular parameter values or modes of the public API (optional arguments, alternative entry points named under 'observable at', non-default settings), or for particular combinations of two inputs (relative sizes, relative order). Small inputs of size 1-4 with default parameters should behave exactly as before. Each change must still be something a developer could plausibly write (a cache, a fast path, a chunked loop, a limit, an early exit, a default).""" if round3 else "") + ("""
 
-This is a FOURTH round: earlier rounds already produced (1) the obvious candidates in the central loop, (2) helper / frame-condition / call-twice candidates and (3) fast paths and limits that only show at scale or in a non-default mode. This time aim for changes that manifest through the KIND of value or object that is passed, or through ALIASING and leftover STATE, rather than through a special number or a size: for example arguments given as numpy scalars / Python ints instead of floats (or the reverse), negative zero, lists vs tuples vs generators, ids given as strings vs integers, a Track where a TrackCollection is accepted (or the reverse), an object passed twice (the same track as both arguments, the same list reused), a result that shares mutable objects with its input so that a later modification of one silently changes the other, module-level or class-level state left modified after an exception or after an early return, caches keyed by something that can be reused (id(), name, size), default arguments evaluated once. Plain float inputs given once to the documented main entry point should behave exactly as before. Each change must still be something a developer could plausibly write.""" if round4 else "") + f"""
+This is a FOURTH round: earlier rounds already produced (1) the obvious candidates in the central loop, (2) helper / frame-condition / call-twice candidates and (3) fast paths and limits that only show at scale or in a non-default mode. This time aim for changes that manifest through the KIND of value or object that is passed, or through ALIASING and leftover STATE, rather than through a special number or a size: for example arguments given as numpy scalars / Python ints instead of floats (or the reverse), negative zero, lists vs tuples vs generators, ids given as strings vs integers, a Track where a TrackCollection is accepted (or the reverse), an object passed twice (the same track as both arguments, the same list reused), a result that shares mutable objects with its input so that a later modification of one silently changes the other, module-level or class-level state left modified after an exception or after an early return, caches keyed by something that can be reused (id(), name, size), default arguments evaluated once. Plain float inputs given once to the documented main entry point should behave exactly as before. Each change must still be something a developer could plausibly write.""" if round4 else "") + ("""
+
+This is a FIFTH round, and a SHORT one: deliver ONLY change A (ignore every mention of a change B), and be done within about 12 minutes - run the full test suite at most twice. Earlier rounds already produced (1) obvious candidates in the central loop, (2) helper / frame-condition / call-twice candidates, (3) fast paths that only show at scale or in a non-default mode, (4) value kinds, aliasing and leftover state. This time aim for a change that needs a COMBINATION to manifest: two conditions that must hold together (for example a degenerate geometry AND a particular option; a tie AND a particular position of the tie - first, last, next to a NaN; a value exactly on a border AND a negative or descending coordinate; a repeated timestamp AND a size parity), or a sequence of two different public operations named in the statement applied one after the other (the second one sees something the first left: a feature column, a sorted flag, an index, a changed bounding box). Either condition alone, and either operation alone, should behave exactly as before. The change must still be something a developer could plausibly write.""" if round5 else "") + f"""
 
 DELIVERABLES (write them under {out}/, create the directory):
   {out}/A/patch.diff   (output of `git -C {wt} diff` for change A alone, relative to the unchanged HEAD)
